@@ -25,6 +25,13 @@ pub trait IndInst: Send + Sync {
 	fn custom_type_runs(&self, cs: &[Candle]) -> (Vec<IndicatorResult>, Vec<IndicatorResult>);
 	/// snapshot + restore through the lossless token format (positional = bincode-like, else named)
 	fn via_tokens(&self, positional: bool) -> Result<Box<dyn IndInst>, String>;
+	fn as_any(&self) -> Option<&dyn std::any::Any> {
+		None
+	}
+	/// `Clone::clone_from` of the wrapped instance; false when `src` wraps another type
+	fn clone_from_inst(&mut self, _src: &dyn IndInst) -> bool {
+		false
+	}
 }
 
 /// A candle type of a user: the same five fields, but its own idea of the derived prices
@@ -127,6 +134,18 @@ where
 	}
 	fn config_json(&self) -> Result<String, String> {
 		serde_json::to_string(self.0.config()).map_err(|e| e.to_string())
+	}
+	fn as_any(&self) -> Option<&dyn std::any::Any> {
+		Some(self)
+	}
+	fn clone_from_inst(&mut self, src: &dyn IndInst) -> bool {
+		match src.as_any().and_then(|a| a.downcast_ref::<Self>()) {
+			Some(s) => {
+				self.0.clone_from(&s.0);
+				true
+			}
+			None => false,
+		}
 	}
 	fn via_tokens(&self, positional: bool) -> Result<Box<dyn IndInst>, String> {
 		use crate::tokfmt::{restore, snapshot, Flavour};
